@@ -2,7 +2,6 @@ package props
 
 import (
 	"encoding/json"
-	"errors"
 	"fmt"
 	"runtime"
 	"strings"
@@ -112,7 +111,16 @@ func applyFault(f Fault, reqs []*fake.Received, normal []map[string]interface{})
 	marshal := func(v interface{}) []byte { b, _ := json.Marshal(v); return b }
 	switch f.Kind {
 	case "transport":
-		return &fake.FaultResponse{Err: errors.New("fake: connection refused")}, true
+		// which error is a function of the faulted request, not of its (schedule-dependent) neighbours in the call
+		key := ""
+		if f.Query != "" {
+			key = f.URL + f.Query
+		} else if f.Pos >= 0 && f.Pos < len(reqs) {
+			key = reqs[f.Pos].Service + reqs[f.Pos].Query
+		} else if len(reqs) > 0 {
+			key = reqs[0].Service
+		}
+		return &fake.FaultResponse{Err: fake.TransportError(key)}, true
 	case "status500":
 		return &fake.FaultResponse{Status: 500, Body: marshal(normal)}, true
 	case "status404":
@@ -320,6 +328,7 @@ func installFaults(net *fake.Net, faults []Fault, hit *int, hitKinds *[]string) 
 
 // checkC09 runs the operation with the faults injected. applied=false: the fault did not apply (call absent / kind not applicable).
 func checkC09(c *FaultCase) (f *ev.Failure, applied bool) {
+	held0 := fake.HeldBodies()
 	net, err := fake.NewNet(c.World)
 	if err != nil {
 		return ev.Failf("harness", "%v", err), false
@@ -463,6 +472,14 @@ func checkC09(c *FaultCase) (f *ev.Failure, applied bool) {
 	for pebblesGoroutines() > 0 {
 		if time.Now().After(deadline) {
 			return ev.Failf("leak", "%d pebbles goroutines remain 2s after the request with fault %s", pebblesGoroutines(), kind), true
+		}
+		time.Sleep(300 * time.Microsecond)
+	}
+	// a response body that is neither read to its end nor closed keeps its connection: under a connection limit
+	// later requests to that service would wait for it forever
+	for fake.HeldBodies() > held0 {
+		if time.Now().After(deadline) {
+			return ev.Failf("later-request:held-response-body", "%d downstream response bodies were neither drained nor closed after fault %s (their connections are never given back)", fake.HeldBodies()-held0, kind), true
 		}
 		time.Sleep(300 * time.Microsecond)
 	}
